@@ -31,6 +31,7 @@ func runC08(c *an.Ctx) {
 	pendingResetRule(c, "R08g")
 	pendingMutationRule(c, "R08h")
 	r08i(c)
+	r08j(c)
 }
 
 func r08a(c *an.Ctx) {
@@ -795,4 +796,79 @@ func r08i(c *an.Ctx) {
 		c.Ob("(*core/workflow."+strings.Replace(name, ".", ").", 1)+"|fresh-call-per-lookup", fn.Pos(), len(bad) == 0 && n > 0,
 			"the Call handed out as a hook at %v is not built by NewCall in this lookup (%d hook values examined; Call.Start writes %d per-start fields of its receiver): a second Start of the remembered object overwrites the await channel and cancel function of a start that is still pending, which is then neither collected nor cancelled", bad, n, perStart)
 	}
+}
+
+// R08j: the state machine does not move past an await point until the awaited call has returned: Call.Await answers
+// only with what it received from the call's await channel (the outcome, or the closing of the channel by a
+// cancelled call) - never with a value of its own while the call may still be running.
+func r08j(c *an.Ctx) {
+	c.Rule("R08j", "Call.Await returns only what it received from the call's await channel", 1)
+	fn := c.MustFn("core/workflow/callable", "Call.Await")
+	if fn == nil {
+		return
+	}
+	c.Subject()
+	isAwaitChan := func(v ssa.Value) bool {
+		return isFieldNamed(v, "await")
+	}
+	var received func(v ssa.Value, depth int) bool
+	received = func(v ssa.Value, depth int) bool {
+		if depth > 6 {
+			return false
+		}
+		switch x := v.(type) {
+		case *ssa.UnOp:
+			if x.Op == token.ARROW {
+				return isAwaitChan(x.X)
+			}
+			if al, ok := x.X.(*ssa.Alloc); ok && x.Op == token.MUL {
+				sts := an.ReachingStores(x)
+				for _, st := range sts {
+					if !received(st.Val, depth+1) {
+						return false
+					}
+				}
+				_ = al
+				return len(sts) > 0
+			}
+		case *ssa.Extract:
+			if sel, ok := x.Tuple.(*ssa.Select); ok {
+				// the value received by the state whose channel is the await channel
+				idx := 2
+				for _, st := range sel.States {
+					if st.Dir == types.RecvOnly {
+						if idx == x.Index {
+							return isAwaitChan(st.Chan)
+						}
+						idx++
+					}
+				}
+			}
+			if u, ok := x.Tuple.(*ssa.UnOp); ok && u.Op == token.ARROW && x.Index == 0 {
+				return isAwaitChan(u.X)
+			}
+		case *ssa.Phi:
+			for _, e := range x.Edges {
+				if !received(e, depth+1) {
+					return false
+				}
+			}
+			return len(x.Edges) > 0
+		}
+		return false
+	}
+	var bad []string
+	n := 0
+	for _, r := range an.Returns(fn) {
+		if len(r.Results) != 1 {
+			continue
+		}
+		n++
+		if !received(r.Results[0], 0) {
+			bad = append(bad, c.PosStr(lastPos(r.Block())))
+		}
+	}
+	sort.Strings(bad)
+	c.Ob("(*core/workflow/callable.Call).Await|returns-received-outcome", fn.Pos(), len(bad) == 0 && n > 0,
+		"Await can return a value that was not received from the call's await channel (at %v): the transition goes on to the next moment while the hook call is still running, and its real outcome is never collected", bad)
 }
